@@ -287,13 +287,13 @@ def _run_prog(item):
     from miasmx.tools import emul_helper
     from miasmx.tools import modint as M
     lines, nrb, seed = item['lines'], item['nrb'], item['seed']
+    cap, snaps = [], []
     try:
         instrs = [x86mnemo.dis(bytes.fromhex(l['hex'])) for l in lines]
         if any(i is None for i in instrs):
             return {'st': 'nodis'}
         m = emul_helper.x86_machine()
         pool0 = sorted(({'n': str(k.name), 'w': EJ.size_of(k), 'e': EJ.to_json(v, X)} for k, v in m.pool.pool_id.items()), key=lambda r: r['n'])
-        cap, snaps = [], []
         orig = emul_helper.get_instr_expr
 
         def wrap(l, my_eip, args=None, segm_to_do=set()):
@@ -319,6 +319,11 @@ def _run_prog(item):
             rbs.append({'a': EJ.to_json(req, X), 'w': w, 'r': EJ.to_json(m.eval_expr(X.ExprMem(req, w), {}), X)})
         return {'st': 'ok', 'pool0': pool0, 'regs': regs, 'cells': cells, 'rbs': rbs, 'cells_bl': snaps[-1],
                 'instrs': [{'txt': l['txt'], 'rep': l['rep'], 'affs': a} for l, a in zip(lines, cap)]}
+    except ValueError as x:
+        if str(x).startswith('Emulation fails for'):
+            # emul_full_expr refuses a rep whose termination it cannot decide (symbolic count / flag): no state to judge
+            return {'st': 'declined', 'at': len(cap)}
+        return {'st': 'exc', 'exc': irlib.exc_key(x)}
     except Exception as x:
         return {'st': 'exc', 'exc': irlib.exc_key(x)}
 
@@ -402,10 +407,17 @@ def prog_items(progs, nrb, seed):
 
 def prog_records(items, rnd, start_id, stats):
     outs = irlib.pmap(_run_prog, items, chunk=20)
+    # a program the emulator declines at instruction k is judged up to instruction k-1
+    redo = [(i, dict(items[i], lines=items[i]['lines'][:o['at'] - 1])) for i, o in enumerate(outs) if o['st'] == 'declined' and o['at'] > 1]
+    stats['declined_by_emulator (rep termination undecidable), judged up to the declined instruction'] += sum(1 for o in outs if o['st'] == 'declined')
+    if redo:
+        items = list(items)
+        for (i, it), o in zip(redo, irlib.pmap(_run_prog, [it for _, it in redo], chunk=20)):
+            items[i], outs[i] = it, o
     recs = []
     for i, (it, o) in enumerate(zip(items, outs)):
-        if o['st'] == 'nodis':
-            stats['not_disassembled'] += 1
+        if o['st'] in ('nodis', 'declined'):
+            stats['not_disassembled'] += o['st'] == 'nodis'
             continue
         r = {'id': start_id + i, 't': 'p', 'lines': it['lines'], 'nrb': it['nrb'], 'seed': it['seed']}
         r.update(o)
@@ -470,12 +482,10 @@ def report_hists(chk, recs, verdicts):
 
 
 def prog_features(r):
+    """features of the last instruction of a (prefix-minimal) failing program"""
     f = []
-    last = r['instrs'][-1]
-    if last['rep'] in ('repe', 'repne'):
-        zf = [x for x in r['regs'] if x['n'] == 'zf']
-        if zf and zf[0]['e']['k'] != 'int':
-            f.append('rep_cmps_scas_with_symbolic_zf')
+    if r['lines'][-1]['rep'] in ('repe', 'repne'):
+        f.append('repe_repne_termination')
     return ','.join(f)
 
 
@@ -500,21 +510,22 @@ def _needs_prefix(f):
     return True
 
 
-def prog_keys(r, f):
-    """violation classes of one failing clause f of program record r (r is prefix-minimal when f needs it)"""
+def prog_keys(r, f, diverged):
+    """violation classes of one failing clause f of program record r.  diverged = r is the shortest prefix after which
+    the symbolic state is wrong: the class is then that of its last instruction (features, worst path of its reads)."""
     c = f['clause']
     if c == 'C07.noexc':
-        k = {'kind': 'program', 'clause': c, 'path': '', 'feat': ''}
+        k = {'kind': 'program', 'clause': c, 'path': '', 'feat': prog_features(r)}
         k.update(r['exc'])
         return [k]
-    feat = prog_features(r)
+    if not diverged:
+        return [{'kind': 'program', 'clause': c, 'path': p, 'feat': ''} for p in _rb_classes(f)]
     last = set(f.get('lastpaths', []))
     if _is_rb(f):
-        out = []
-        for p in sorted(set(f.get('paths', [f.get('path', '')]))):
-            out.append({'kind': 'program', 'clause': c, 'path': p if p.startswith('overlap') else worst_path(last | {p}), 'feat': feat})
-        return out
-    return [{'kind': 'program', 'clause': c, 'path': worst_path(last), 'feat': feat}]
+        paths = sorted(set(worst_path(last | {p}) for p in set(f.get('paths', [f.get('path', '')]))))
+    else:
+        paths = [worst_path(last)]
+    return [{'kind': 'program', 'clause': c, 'path': p, 'feat': prog_features(r)} for p in paths]
 
 
 def _prog_detail(r, mr, f):
@@ -533,41 +544,41 @@ def _prog_detail(r, mr, f):
 
 
 def report_progs(chk, recs, verdicts, rnd):
-    """A failing read-back is classified by the path of eval_ExprMem it takes on the final pool.  Every other failing
-    clause (register, pool, exception, read-back on a path that does not explain itself) is attributed by reducing the
-    program to its shortest prefix failing that clause (re-emulated, re-judged): class = (clause, worst path among the
-    memory reads of the prefix's last instruction, features)."""
+    """A failing read-back whose own path through eval_ExprMem is one of the overlap paths is classified by that path
+    (the pool may be perfectly right).  Everything else (register, pool, exception, read-back on another path) means the
+    symbolic STATE diverged: the program is reduced to its shortest prefix after which such a clause fails (re-emulated,
+    re-judged) and all of them are attributed to that first divergence: class = (clause, worst eval_ExprMem path among
+    the memory reads of the prefix's last instruction, features of that instruction)."""
     byid = {r['id']: r for r in recs}
     todo = []
     for v in sorted(verdicts, key=lambda v: (len(byid[v['id']]['lines']), v['id'])):
         r = byid[v['id']]
-        need = [f for f in v['v'] if _needs_prefix(f)]
         for f in v['v']:
             if _is_rb(f) and not _needs_prefix(f):
-                for key in prog_keys(r, f):
+                for key in prog_keys(r, f, False):
                     chk.violation(key, _prog_detail(r, r, f))
-        if need:
-            todo.append((r, need))
+        if any(_needs_prefix(f) for f in v['v']):
+            todo.append((r, v))
     if not todo:
         return
     items, owner = [], []
-    for bi, (r, need) in enumerate(todo):
+    for bi, (r, v) in enumerate(todo):
         for n in range(1, len(r['lines'])):
             items.append({'lines': r['lines'][:n], 'nrb': r['nrb'], 'seed': r['seed']})
             owner.append((bi, n))
     precs = prog_records(items, rnd, 0, collections.Counter()) if items else []
     pver = {v['id']: v for v in judge(chk, precs)} if precs else {}
-    for bi, (r, need) in enumerate(todo):
-        cands = sorted((n, pr) for pr in precs for (b2, n) in [owner[pr['id']]] if b2 == bi and pr['id'] in pver)
-        for f in need:
-            mr, mf = r, f
-            for n, pr in cands:
-                hit = [g for g in pver[pr['id']]['v'] if g['clause'] == f['clause'] and _needs_prefix(g)]
-                if hit:
-                    mr, mf = pr, hit[0]
-                    break
-            for key in prog_keys(mr, mf):
-                chk.violation(key, _prog_detail(r, mr, mf))
+    first = {}
+    for pr in precs:
+        bi, n = owner[pr['id']]
+        if pr['id'] in pver and any(_needs_prefix(g) for g in pver[pr['id']]['v']) and (bi not in first or n < first[bi][0]):
+            first[bi] = (n, pr, pver[pr['id']])
+    for bi, (r, v) in enumerate(todo):
+        n, mr, mv = first.get(bi, (len(r['lines']), r, v))
+        for f in mv['v']:
+            if _needs_prefix(f):
+                for key in prog_keys(mr, f, True):
+                    chk.violation(key, _prog_detail(r, mr, f))
 
 
 def count_illtyped(verdicts):
